@@ -3700,10 +3700,17 @@ func (c *BytecodeCompiler) optimiseIfNotEqual(jumpOp bytecode.OpCode, condition 
 
 	if jumpOp == bytecode.JUMP_UNLESS {
 		if c.checker.IsSubtype(leftType, c.checker.StdNil()) {
-			return bytecode.JUMP_IF_NIL, func() { c.compileNodeWithResult(condition.Right) }
+			return bytecode.JUMP_IF_NIL, func() {
+				// the operand known to be nil is still evaluated for its effects
+				c.compileNodeWithoutResult(condition.Left)
+				c.compileNodeWithResult(condition.Right)
+			}
 		}
 		if c.checker.IsSubtype(rightType, c.checker.StdNil()) {
-			return bytecode.JUMP_IF_NIL, func() { c.compileNodeWithResult(condition.Left) }
+			return bytecode.JUMP_IF_NIL, func() {
+				c.compileNodeWithResult(condition.Left)
+				c.compileNodeWithoutResult(condition.Right)
+			}
 		}
 		if c.checker.IsSubtype(leftType, c.checker.StdInt()) {
 			return bytecode.JUMP_IF_IEQ, func() {
@@ -3713,18 +3720,24 @@ func (c *BytecodeCompiler) optimiseIfNotEqual(jumpOp bytecode.OpCode, condition 
 		}
 		if c.checker.IsSubtype(rightType, c.checker.StdInt()) {
 			return bytecode.JUMP_IF_IEQ, func() {
-				c.compileNodeWithResult(condition.Right)
-				c.compileNodeWithResult(condition.Left)
+				c.compileOperandsSwapped(condition.Left, condition.Right)
 			}
 		}
 	}
 
 	if jumpOp == bytecode.JUMP_IF {
 		if c.checker.IsSubtype(leftType, c.checker.StdNil()) {
-			return bytecode.JUMP_UNLESS_NIL, func() { c.compileNodeWithResult(condition.Right) }
+			return bytecode.JUMP_UNLESS_NIL, func() {
+				// the operand known to be nil is still evaluated for its effects
+				c.compileNodeWithoutResult(condition.Left)
+				c.compileNodeWithResult(condition.Right)
+			}
 		}
 		if c.checker.IsSubtype(rightType, c.checker.StdNil()) {
-			return bytecode.JUMP_UNLESS_NIL, func() { c.compileNodeWithResult(condition.Left) }
+			return bytecode.JUMP_UNLESS_NIL, func() {
+				c.compileNodeWithResult(condition.Left)
+				c.compileNodeWithoutResult(condition.Right)
+			}
 		}
 		if c.checker.IsSubtype(leftType, c.checker.StdInt()) {
 			return bytecode.JUMP_UNLESS_IEQ, func() {
@@ -3734,8 +3747,7 @@ func (c *BytecodeCompiler) optimiseIfNotEqual(jumpOp bytecode.OpCode, condition 
 		}
 		if c.checker.IsSubtype(rightType, c.checker.StdInt()) {
 			return bytecode.JUMP_UNLESS_IEQ, func() {
-				c.compileNodeWithResult(condition.Right)
-				c.compileNodeWithResult(condition.Left)
+				c.compileOperandsSwapped(condition.Left, condition.Right)
 			}
 		}
 	}
@@ -3749,10 +3761,17 @@ func (c *BytecodeCompiler) optimiseIfEqual(jumpOp bytecode.OpCode, condition *as
 
 	if jumpOp == bytecode.JUMP_UNLESS {
 		if c.checker.IsSubtype(leftType, c.checker.StdNil()) {
-			return bytecode.JUMP_UNLESS_NIL, func() { c.compileNodeWithResult(condition.Right) }
+			return bytecode.JUMP_UNLESS_NIL, func() {
+				// the operand known to be nil is still evaluated for its effects
+				c.compileNodeWithoutResult(condition.Left)
+				c.compileNodeWithResult(condition.Right)
+			}
 		}
 		if c.checker.IsSubtype(rightType, c.checker.StdNil()) {
-			return bytecode.JUMP_UNLESS_NIL, func() { c.compileNodeWithResult(condition.Left) }
+			return bytecode.JUMP_UNLESS_NIL, func() {
+				c.compileNodeWithResult(condition.Left)
+				c.compileNodeWithoutResult(condition.Right)
+			}
 		}
 		if c.checker.IsSubtype(leftType, c.checker.StdInt()) {
 			return bytecode.JUMP_UNLESS_IEQ, func() {
@@ -3762,17 +3781,23 @@ func (c *BytecodeCompiler) optimiseIfEqual(jumpOp bytecode.OpCode, condition *as
 		}
 		if c.checker.IsSubtype(rightType, c.checker.StdInt()) {
 			return bytecode.JUMP_UNLESS_IEQ, func() {
-				c.compileNodeWithResult(condition.Right)
-				c.compileNodeWithResult(condition.Left)
+				c.compileOperandsSwapped(condition.Left, condition.Right)
 			}
 		}
 	}
 	if jumpOp == bytecode.JUMP_IF {
 		if c.checker.IsSubtype(leftType, c.checker.StdNil()) {
-			return bytecode.JUMP_IF_NIL, func() { c.compileNodeWithResult(condition.Right) }
+			return bytecode.JUMP_IF_NIL, func() {
+				// the operand known to be nil is still evaluated for its effects
+				c.compileNodeWithoutResult(condition.Left)
+				c.compileNodeWithResult(condition.Right)
+			}
 		}
 		if c.checker.IsSubtype(rightType, c.checker.StdNil()) {
-			return bytecode.JUMP_IF_NIL, func() { c.compileNodeWithResult(condition.Left) }
+			return bytecode.JUMP_IF_NIL, func() {
+				c.compileNodeWithResult(condition.Left)
+				c.compileNodeWithoutResult(condition.Right)
+			}
 		}
 		if c.checker.IsSubtype(leftType, c.checker.StdInt()) {
 			return bytecode.JUMP_IF_IEQ, func() {
@@ -3782,8 +3807,7 @@ func (c *BytecodeCompiler) optimiseIfEqual(jumpOp bytecode.OpCode, condition *as
 		}
 		if c.checker.IsSubtype(rightType, c.checker.StdInt()) {
 			return bytecode.JUMP_IF_IEQ, func() {
-				c.compileNodeWithResult(condition.Right)
-				c.compileNodeWithResult(condition.Left)
+				c.compileOperandsSwapped(condition.Left, condition.Right)
 			}
 		}
 	}
@@ -3804,8 +3828,7 @@ func (c *BytecodeCompiler) optimiseIfGreater(jumpOp bytecode.OpCode, condition *
 		}
 		if c.checker.IsSubtype(rightType, c.checker.StdInt()) {
 			return bytecode.JUMP_UNLESS_ILT, func() {
-				c.compileNodeWithResult(condition.Right)
-				c.compileNodeWithResult(condition.Left)
+				c.compileOperandsSwapped(condition.Left, condition.Right)
 			}
 		}
 	}
@@ -3835,8 +3858,7 @@ func (c *BytecodeCompiler) optimiseIfGreaterEqual(jumpOp bytecode.OpCode, condit
 		// Reverse only when leftType is subtype of BuiltinComparable
 		if c.checker.IsSubtype(rightType, c.checker.StdInt()) {
 			return bytecode.JUMP_UNLESS_ILE, func() {
-				c.compileNodeWithResult(condition.Right)
-				c.compileNodeWithResult(condition.Left)
+				c.compileOperandsSwapped(condition.Left, condition.Right)
 			}
 		}
 	}
@@ -3865,8 +3887,7 @@ func (c *BytecodeCompiler) optimiseIfLess(jumpOp bytecode.OpCode, condition *ast
 		}
 		if c.checker.IsSubtype(rightType, c.checker.StdInt()) {
 			return bytecode.JUMP_UNLESS_IGT, func() {
-				c.compileNodeWithResult(condition.Right)
-				c.compileNodeWithResult(condition.Left)
+				c.compileOperandsSwapped(condition.Left, condition.Right)
 			}
 		}
 	}
@@ -3895,8 +3916,7 @@ func (c *BytecodeCompiler) optimiseIfLessEqual(jumpOp bytecode.OpCode, condition
 		}
 		if c.checker.IsSubtype(rightType, c.checker.StdInt()) {
 			return bytecode.JUMP_UNLESS_IGE, func() {
-				c.compileNodeWithResult(condition.Right)
-				c.compileNodeWithResult(condition.Left)
+				c.compileOperandsSwapped(condition.Left, condition.Right)
 			}
 		}
 	}
@@ -3910,6 +3930,21 @@ func (c *BytecodeCompiler) optimiseIfLessEqual(jumpOp bytecode.OpCode, condition
 	}
 
 	return 0, nil
+}
+
+// Evaluate `left`, then `right`, and leave them on the stack in the opposite order,
+// for the comparison instructions that expect their `Int` operand first.
+func (c *BytecodeCompiler) compileOperandsSwapped(left, right ast.ExpressionNode) {
+	if !c.resolve(left).IsUndefined() || !c.resolve(right).IsUndefined() {
+		// a static value can be pushed first, nothing can observe the order
+		c.compileNodeWithResult(right)
+		c.compileNodeWithResult(left)
+		return
+	}
+
+	c.compileNodeWithResult(left)
+	c.compileNodeWithResult(right)
+	c.emit(right.Location().EndPos.Line, bytecode.SWAP)
 }
 
 func (c *BytecodeCompiler) compileValueDeclarationNode(node *ast.ValueDeclarationNode, valueIsIgnored bool) expressionResult {
